@@ -1135,7 +1135,10 @@ class PandasModelBase(
         for c in common_cols:
             if c not in merged_key_cols:
                 is_null = res[c].isnull()
-                if is_null.any():
+                if is_null.all():
+                    # nothing on the left (its column may have no type of its own): the right column as it is
+                    res[c] = res[c + "_tmp_right_col"]
+                elif is_null.any():
                     res.loc[is_null, c] = res.loc[is_null, c + "_tmp_right_col"]
                 res = res.drop(c + "_tmp_right_col", axis=1, inplace=False)
         how = self.standardize_join_code_(op.jointype)
